@@ -239,7 +239,22 @@ def consistent(ops):
     return out
 
 
-def shrink(ctx, case, kind):
+def first_diff(case, out):
+    """index of the first operation whose output differs between model and implementation"""
+    cfg = "{| pagesize := %s; blocksize := %s |}" % (cz(out["geom"]["pagesize"]), cz(out["geom"]["blocksize"]))
+    ok, text = vlib.coq_eval(["C29.Model"], "Eval vm_compute in first_diff_case %s %s.\n" % (
+        cpair(cfg, c_ops(case["ops"])), canon_outs(out["outs"])), timeout=600)
+    import re
+    m = re.search(r"Some (\d+)", text)
+    return int(m.group(1)) if ok and m else None
+
+
+def shrink(ctx, case, kind, out=None):
+    if kind == "model" and out is not None:
+        i = first_diff(case, out)
+        if i is not None:
+            case = dict(ops=case["ops"][:i + 1])
+
     def fails(ops):
         c = dict(ops=consistent(ops))
         out, died = run_one(ctx, c)
@@ -251,7 +266,7 @@ def shrink(ctx, case, kind):
             return bool(predicate(c, out["outs"]))
         bad, _, err = model_check([(c, out)])
         return bool(bad)
-    return dict(ops=consistent(ddmin(list(case["ops"]), fails)))
+    return dict(ops=consistent(ddmin(list(case["ops"]), fails, max_rounds=40 if kind != "model" else 16)))
 
 
 def evaluate(ctx, cases):
@@ -280,6 +295,7 @@ def evaluate(ctx, cases):
                 peak = max(peak, alive)
                 if o[1] in seen:
                     reuse += 1
+                    ctx.nontrivial(("reuse", len(done), op[1]))
                 seen.add(o[1])
             elif op[0] == "drop":
                 alive -= 1
@@ -290,15 +306,16 @@ def evaluate(ctx, cases):
         ctx.extra.setdefault("geometry", out["geom"])
         for op in case["ops"]:
             ctx.hist("op", op[0] if op[0] != "call" else "call:" + op[3])
-        if reuse and peak > per_page:
-            ctx.nontrivial(case["ops"])
+        for op, o in zip(case["ops"], out["outs"]):
+            if op[0] == "call" and peak > per_page:
+                ctx.nontrivial(("call", len(done), op[1], op[3]))
         done.append((case, out))
     bad, outs, err = model_check(done)
     if err:
         ctx.obligation_broken("C29 model evaluation", err)
-    for j in bad[:(0 if ctx.violations else 2)]:
+    for j in bad[:(0 if ctx.violations else 1)]:
         case, out = done[j]
-        small = shrink(ctx, case, "model") if not ctx.replay_mode else case
+        small = shrink(ctx, case, "model", out) if not ctx.replay_mode else case
         out2, _ = run_one(ctx, small)
         _, mo, _ = model_check([(small, out2)])
         ctx.mismatch(small, "model = %s ; implementation (addresses as first-appearance numbers) = %s" % (
@@ -313,8 +330,9 @@ def run(ctx):
                        "11,15,20,27.. pages), with drops in random order (3% of callbacks in a reference cycle, freed by "
                        "gc.collect()), failed variadic creations, mass drop + re-creation, churn at the list head, "
                        "drop-to-10% and regrowth; live callbacks are called (three signatures; through the cdata, through "
-                       "a cast function pointer, from a C helper) in sweeps over all live ones. Non-trivial = history "
-                       "that crossed a page boundary and reused freed closures. evaluations = operations executed.")
+                       "a cast function pointer, from a C helper) in sweeps over all live ones. Non-trivial = a creation "
+                       "that reused a freed closure, or a call of a live callback in a history that crossed a page "
+                       "boundary (distinct by history, handle, route). evaluations = operations executed.")
     ctx.assumptions += [
         "hand-written model C29/Model.v of malloc_closure.h + b_callback/cdataowninggc_dealloc; tied by this "
         "run's differential histories (addresses compared as first-appearance numbers)",
